@@ -450,7 +450,7 @@ def c2s(ctx, base, nrandom, nin, descs=None):
     for k, (v, ids) in enumerate(zip(vals, keep)):
         if renumber(project(v, ids), 10000 * (k + 1)) != logged[k]:
             ctx.violation('operand_changed', case_of('operand_changed', [logged[k]], [short(v)], names=('x',)), {'after': project(v, ids)})
-    bad = ctx.validate('Trace_Eq', obs)
+    bad = ctx.validate('Trace_Eq', obs, whole=True)
     fnd = Findings(ctx, 'c2s')
     for line, verdict in bad:
         o = obs[line - 1]
